@@ -290,6 +290,7 @@ import (
 //@ @wf ensures [heads-are-entries-nothing-names] entries != nil ==> forall i int :: 0 <= i && i < len(result) ==> has(omv(entries), ehash(result[i])) && omv(entries)[ehash(result[i])] == result[i] && notNamedIn(entries, ehash(result[i]))
 //@ @wf ensures [every-unnamed-entry-is-a-head] entries != nil ==> forall k string :: has(omv(entries), k) ==> (exists r int :: 0 <= r && r < len(result) && result[r] == omv(entries)[k]) || namedIn(entries, k)
 //@   lockrequires entries == nil || held[entries.(*OrderedMap).lock] >= 0
+//@   ensures [find-heads-returns-well-formed-entries] forall i int :: 0 <= i && i < len(result) ==> validEntry(result[i])
 //@   ensures [find-heads-returns-entries-of-the-map] forall i int :: 0 <= i && i < len(result) ==> validEntry(result[i]) && (exists k string :: has(entries.(*OrderedMap).values, k) && entries.(*OrderedMap).values[k] == result[i])
 //@   ensures entries == nil ==> len(result) == 0
 //@   ensures result == nil || fresh(result)
